@@ -89,9 +89,17 @@ def build_repo(release=False):
     cmd = ["cargo", "build", "--offline", "-q"] + (["--release"] if release else [])
     with Lock("cargo-repo"):
         rc, out, err = sh(cmd, cwd=REPO, env=env, timeout=1500)
-    if rc != 0:
-        raise BuildError("cargo build of /repo failed:\n" + err.decode("utf8", "replace")[-3000:])
-    return os.path.join(TARGET, "release" if release else "debug", "mscript")
+        if rc != 0:
+            raise BuildError("cargo build of /repo failed:\n" + err.decode("utf8", "replace")[-3000:])
+        # a private copy: another check rebuilding /repo must not pull the binary from under a running one
+        src = os.path.join(TARGET, "release" if release else "debug", "mscript")
+        bdir = os.path.join(CACHE, "bin")
+        os.makedirs(bdir, exist_ok=True)
+        dst = os.path.join(bdir, "mscript-%s-%d" % ("release" if release else "debug", os.getpid()))
+        shutil.copy2(src, dst)
+        import atexit
+        atexit.register(lambda: os.path.exists(dst) and os.remove(dst))
+    return dst
 
 
 def build_harness(name, release=False, bins=None):
